@@ -939,6 +939,22 @@ def model_rows():
     return rows
 
 
+def robust_eval(ctx, name, txt):
+    """Gen/GenTables.v is shared with the checks of C07 and C20: when one of them regenerates and rebuilds it between
+    our build and this evaluation, coqc reports `inconsistent assumptions`; regenerate + rebuild and try again"""
+    from harness.common import COQ, Lock, sh     # pylint: disable=import-outside-toplevel
+    for _ in range(3):
+        ok, out = ctx.coq_eval(name, txt)
+        if ok or "inconsistent assumptions" not in out:
+            return ok, out
+        ctx.bump("corr:rebuild-after-concurrent-regen")
+        if not ctx.regen(["GenShape", "GenTables"]):
+            return ok, out
+        with Lock():
+            sh("make -j8 Props/C17.vo", 900, cwd=COQ)
+    return ok, out
+
+
 def correspondence(ctx, built):
     rng = ctx.rng
     shared = battery_types() + battery_shapes(rng, ctx.n(10, 200))
@@ -987,7 +1003,7 @@ def correspondence(ctx, built):
         part = cases[ci:ci + chunk]
         txt = (CASES_HEADER + "Definition cases : list xcase :=\n" + clist(part).replace("; (X", ";\n (X")
                + ".\nEval vm_compute in (failing cases).\nEval vm_compute in (map doc_verdict cases).\n")
-        ok, out = ctx.coq_eval(f"c17_{ctx.tier}_{ci}", txt)
+        ok, out = robust_eval(ctx, f"c17_{ctx.tier}_{ci}", txt)
         blocks = out.split("     = ")
         bad = parse_z_list("= " + blocks[1]) if ok and len(blocks) >= 3 else None
         verd = parse_z_list("= " + blocks[2]) if ok and len(blocks) >= 3 else None
